@@ -208,7 +208,7 @@ class C13(Check):
             'the filter (the process a trace belongs to is the one its thread has when the trace is reported, read from the unfiltered run). (B) request histories: all sequences of <=3 requests over {traces, formatted_traces, callstacks} on one '
             'parser object x 11 streams (incl. samples before/after image announcements, a string id / thread name / new thread used before the record that announces it, dumps cut in the middle of operations) x class lists x subclass lists x '
             'tid/process {none, set} x {list, tuple}: each request equals the same request on a fresh parser; filter settings equal '
-            'and same type afterwards. states = distinct configurations; transitions = requests; non-trivial = a non-empty filter.')
+            'and same type afterwards. (C) the command-line tool: `traces --no-color` with every tid/process/class/subclass option combination prints the library\'s lines for the same settings. states = distinct configurations; transitions = requests; non-trivial = a non-empty filter.')
     assumptions = ('streams do not rely on table updates made by records that the filter itself removes (the statement does not say '
                    'whose tables "satisfy the filter" refers to in that case)',)
 
@@ -221,9 +221,40 @@ class C13(Check):
         streams = list(seqs(alphabet, L, 1))
         out = [('A', ch) for ch in chunked(streams, 70 if L == 2 else 200)]
         out += [('B', si, as_tuple) for si in range(len(HIST_STREAMS)) for as_tuple in (False, True)]
+        out.append(('cli',))
         return out
 
+    def run_cli(self, acc):
+        """`traces --no-color [--tid T] [--process P] [-cf C]... [-sf S]... [--show-tid]` prints exactly the lines the library
+        gives for the same settings (so every option reaches the filter it names)."""
+        from mc.cli import run_cli
+        streams = [(('open+lookup', 1), ('getpid', 2), ('reply_port', 1), ('mmap', 2), ('lone-lookup', 1), ('exec-rename', 2), ('getpid', 2))]
+        for opseq in streams:
+            blob = build_stream(opseq)
+            for tid in TIDS:
+                for proc in PROCS:
+                    for cl in class_lists():
+                        for sc in SUBCLASS_LISTS:
+                            for show_tid in ((False, True) if tid is None and proc is None else (False,)):
+                                args = ['traces', '--no-color'] + (['--tid', str(tid)] if tid is not None else []) + \
+                                       (['--process', proc] if proc is not None else []) + (['--show-tid'] if show_tid else [])
+                                for c in cl:
+                                    args += ['-cf', hex(c)]
+                                for x in sc:
+                                    args += ['-sf', str(x)]
+                                code, lines, exc = run_cli(blob, args)
+                                f = PyKdebugParser()
+                                configure(f, (tid, proc, cl, sc))
+                                f.show_tid = show_tid
+                                exp = list(f.formatted_traces(io.BytesIO(blob)))
+                                acc.case(nontrivial=True, transitions=2, state=h64(('cli', tid, proc, cl, sc)))
+                                if code != 0 or exc is not None or lines != exp:
+                                    acc.violation('cli-traces-differ-from-library', {'kind': 'cli', 'args': args},
+                                                  {'exit': code, 'error': repr(exc)[:200], 'got': lines[:3], 'expected': exp[:3]})
+
     def run_shard(self, desc, acc):
+        if desc[0] == 'cli':
+            return self.run_cli(acc)
         if desc[0] == 'A':
             cfgs = [(t, p, c, s) for t in TIDS for p in PROCS for c in class_lists() for s in SUBCLASS_LISTS]
             for opseq in desc[1]:
@@ -254,6 +285,11 @@ class C13(Check):
             acc.sample({'stream': [list(o) for o in HIST_STREAMS[si]], 'requests': ['callstacks', 'traces', 'callstacks']})
 
     def replay(self, case):
+        if case['kind'] == 'cli':
+            from mc.run import Acc
+            acc = Acc()
+            self.run_cli(acc)
+            return [(sig, v['cases'][0][1]) for sig, v in acc.violations.items()]
         c = case['cfg']
         cfg = (c[0], c[1], tuple(c[2]), tuple(c[3]))
         if case['kind'] == 'A':
